@@ -1,6 +1,7 @@
 package main
 
 import (
+	"go/types"
 	"fmt"
 	"go/token"
 
@@ -79,21 +80,25 @@ func (x *c04) r7() {
 	virt := x.walk.Params[0]
 	wfn := x.walk.Params[1]
 	msg := ""
+	// the loop variables by role: the level is what walkFn receives as its first
+	// argument; the table address is the other pointer-sized variable of that loop
 	var levelPhi, tablePhi *ssa.Phi
-	for _, in := range g.Ins {
-		if phi, ok := in.(*ssa.Phi); ok {
-			switch phi.Comment {
-			case "level":
-				levelPhi = phi
-			case "tableAddr":
-				tablePhi = phi
-			}
-		}
-	}
 	var call *ssa.Call
 	for _, in := range g.Ins {
 		if cl, ok := in.(*ssa.Call); ok && cl.Common().Value == ssa.Value(wfn) {
 			call = cl
+		}
+	}
+	if call != nil && len(call.Common().Args) > 0 {
+		levelPhi, _ = stripConv(call.Common().Args[0]).(*ssa.Phi)
+	}
+	if levelPhi != nil {
+		for _, in := range levelPhi.Block().Instrs {
+			if phi, ok := in.(*ssa.Phi); ok && phi != levelPhi && isIntegral(phi.Type()) && intWidth(phi.Type()) != 8 {
+				if bt, ok := phi.Type().Underlying().(*types.Basic); ok && bt.Kind() == types.Uintptr {
+					tablePhi = phi
+				}
+			}
 		}
 	}
 	loadsTable := func(v ssa.Value, gl *ssa.Global, idx ssa.Value) bool {
